@@ -378,7 +378,22 @@ def run(tier):
                 ck.finding("R4c.unrepresentable-omitted", "R4c.unrepresentable-omitted/%s/%s" % (p4, kind), None,
                            "`%s` never tests a member's value for %s in its member loop: such a member is written as `null` instead of being left out "
                            "(`JSON.stringify({f(){}})` gives `{\"f\":null}`)" % (p4, kind))
+    # R5: a double written to the document as an integer is inside that integer type
+    import fcast
+    ck.rule("R5.integral-cast-in-range", "every float->int cast whose result is written to a document (serde_json::Number::from) is dominated by comparisons "
+                                         "that keep the value inside the integer type (constants evaluated as doubles)", floor=1)
+    for f5, sp5, ty5, ok5, why5 in fcast.sites(fx, lambda g: g.file.startswith("src/")):
+        ck.instance("R5.integral-cast-in-range", "%s: `as %s` -> serde_json::Number" % (f5.path, ty5), F.short_span(sp5), ok=ok5)
+        if not ok5:
+            ck.finding("R5.integral-cast-in-range", "R5.integral-cast-in-range/%s/%s" % (f5.path, ty5), F.short_span(sp5),
+                       "`%s` writes `x as %s` to the document and %s: the cast saturates, so every larger whole number is exported as the same integer "
+                       "(2**63 -> 9223372036854775807, 1e20 -> 18446744073709551615)" % (f5.path, ty5, why5))
     ctl = F.load_fixture()
+    got5 = sorted((f.path.split("::")[-1], ok) for f, sp, ty, ok, why in fcast.sites(ctl, lambda g: g.path.startswith("c16cast::"), sink=("c16cast::Number::from_",)))
+    want5 = [("bad_abs_bound", False), ("bad_inclusive_bound", False), ("good_strict_bound", True)]
+    if got5 != want5:
+        ck.closed_fail.append("R5 control failed: fixture reports %s (want %s)" % (got5, want5))
+    ck.note("R5 controls: `x <= i64::MAX as f64` and `x.abs() < 1e21` then `as u64` reported; `x >= i64::MIN as f64 && x < i64::MAX as f64` silent")
     ck4 = Check("C16", tier, "", [])
     member_omission(ctl, ck4, "R4.omission-by-source-kind", lambda g: g.path.startswith("c16omit::"))
     bad4 = {fd[1].split("/")[-1] for fd in ck4.findings}
